@@ -209,6 +209,89 @@ theorem coverLoop_rel : ∀ (n : Nat) (es : List Entry) (d : Rat) (a : Bool),
     · exact ⟨fun h => h, forall2_refl _ _⟩
 
 
+/-! ### the fuel of the covering loop is never exhausted -/
+
+/-- number of excess entries the covering loop can still consume -/
+def liveCount : List Entry → Nat
+  | [] => 0
+  | e :: es => (match e.exc with
+      | some x => if largestStop x then 0 else 1
+      | none => 0) + liveCount es
+
+theorem largestStop_zero : largestStop 0 := Or.inl close_zero
+
+theorem liveCount_setFirst (lp : Rat) (hs : ¬ largestStop lp) : ∀ es : List Entry, maxExc es = some lp →
+    liveCount (setFirst lp partialExcess es) + 1 = liveCount es
+  | [], h => by simp [maxExc] at h
+  | e :: es, h => by
+    unfold maxExc at h
+    unfold setFirst
+    cases hx : e.exc with
+    | none =>
+      rw [hx] at h
+      simp only [reduceCtorEq, if_false, liveCount, hx]
+      have := liveCount_setFirst lp hs es h
+      omega
+    | some x =>
+      rw [hx] at h
+      by_cases hxl : x = lp
+      · subst hxl
+        simp only [if_true, liveCount, hx, hs, if_false, partialExcess, largestStop_zero]
+        omega
+      · have hne : ¬ (some x = some lp) := fun h' => hxl (Option.some.inj h')
+        simp only [hne, if_false, liveCount, hx]
+        cases hm : maxExc es with
+        | none => rw [hm] at h; exact absurd (Option.some.inj h) hxl
+        | some y =>
+          rw [hm] at h
+          have hp : pyMax x y = lp := Option.some.inj h
+          have hy : y = lp := by
+            unfold pyMax at hp; split_ifs at hp
+            · exact hp
+            · exact absurd hp hxl
+          have := liveCount_setFirst lp hs es (hy ▸ hm)
+          omega
+
+theorem coverLoop_stable : ∀ (n : Nat) (es : List Entry) (d : Rat) (a : Bool), liveCount es < n →
+    coverLoop (n + 1) es d a = coverLoop n es d a := by
+  intro n
+  induction n with
+  | zero => intro es d a h; omega
+  | succ k ih =>
+    intro es d a h
+    rw [coverLoop, coverLoop]
+    split_ifs with hc
+    · cases hm : maxExc es with
+      | none => rfl
+      | some lp =>
+        simp only []
+        split_ifs with hs hcov
+        · rfl
+        · rfl
+        · apply ih
+          have := liveCount_setFirst lp hs es hm
+          omega
+    · rfl
+
+theorem liveCount_le : ∀ es : List Entry, liveCount es ≤ es.length
+  | [] => Nat.le_refl _
+  | e :: es => by
+    have := liveCount_le es
+    simp only [liveCount, List.length_cons]
+    cases e.exc with
+    | none => simp only []; omega
+    | some x => simp only []; split_ifs <;> omega
+
+/-- The fuel `length + 1` the model gives to the `while` loop is never exhausted: more fuel changes nothing. -/
+theorem coverLoop_fuel (es : List Entry) (d : Rat) (a : Bool) : ∀ m : Nat,
+    coverLoop (es.length + 1 + m) es d a = coverLoop (es.length + 1) es d a
+  | 0 => rfl
+  | m + 1 => by
+    have := liveCount_le es
+    rw [← coverLoop_fuel es d a m]
+    have h2 : liveCount es < es.length + 1 + m := by omega
+    exact coverLoop_stable (es.length + 1 + m) es d a h2
+
 /-- Invariant of the loop over the deficits, relative to the entries `es0` the reservation loop produced. -/
 def CSInv (es0 : List Entry) (cs : CS) : Prop :=
   All2 (EnRel cs.approx) es0 cs.es ∧ cs.D = sumL (es0.map (·.dInc)) + sumL cs.adjs
